@@ -487,9 +487,9 @@ impl Check for C04 {
     }
     fn n_runs(&self, thorough: bool) -> u64 {
         if thorough {
-            300_000
+            3_000_000
         } else {
-            8_000
+            100_000
         }
     }
     fn gen_plan(&self, seed: u64, _idx: u64, _t: bool) -> Value {
@@ -623,9 +623,9 @@ impl Check for C05 {
     }
     fn n_runs(&self, thorough: bool) -> u64 {
         if thorough {
-            300_000
+            3_000_000
         } else {
-            8_000
+            80_000
         }
     }
     fn gen_plan(&self, seed: u64, idx: u64, _t: bool) -> Value {
